@@ -162,7 +162,7 @@ func (r *RefCount[T]) addRefLocked(cb func(resolved bool, val T, err error)) *Re
 	r.refs[nref] = struct{}{}
 	if len(r.refs) == 1 && !r.resolved {
 		r.startResolveLocked()
-	} else if r.resolved {
+	} else if r.resolved && nref.cb != nil {
 		nref.cb(true, r.value, r.valueErr)
 	}
 	return nref
